@@ -60,10 +60,7 @@ let toks_s (l : n list list) = if l = [] then "." else String.concat "," (List.m
 let toks_p (s : string) : n list list =
   if s = "." then [] else List.map s_of_hex (String.split_on_char ',' s)
 
-let err_text = [| ""; "No JSON data found"; "Unterminated string"; "Invalid string escape sequence";
-  "Unterminated array"; "Expected either , or ] after an array element"; "Unterminated object";
-  "Expected key for object"; "Missing : after key"; "Incorrect character after key, should be :";
-  "Expected either , or } after an object value"; "Invalid JSON value"; "Maximum nesting depth exceeded" |]
+let string_of_bytes (l : n list) : string = String.concat "" (List.map (fun c -> String.make 1 (Char.chr (int_of_n c land 255))) l)
 let hex_of_string (s : string) =
   if s = "" then "-" else String.concat "" (List.map (fun c -> Printf.sprintf "%02x" (Char.code c)) (List.init (String.length s) (String.get s)))
 let bytes_of_string (s : string) : n list = List.init (String.length s) (fun i -> n_of_int (Char.code s.[i]))
@@ -81,7 +78,7 @@ let parse_result (text : n list) (print_tree : bool) : string =
   match parse_text text with
   | PFuel -> "ok=FUEL;class=parse:fuel"
   | PDeep -> "ok=DEEP;class=parse:deep-hazard"
-  | PErr e -> "ok=0;err=" ^ hex_of_string err_text.(int_of_n e) ^ ";class=parse:err" ^ string_of_int (int_of_n e)
+  | PErr e -> "ok=0;err=" ^ hex_of_string (string_of_bytes (lexer_error_text e)) ^ ";class=parse:err" ^ string_of_int (int_of_n e)
   | POk (v, _) ->
     let w = write cx_parsed O v in
     let rt = match parse_text w with
@@ -153,10 +150,29 @@ let handle (p : string) : string =
             if close then for i = n downto 1 do Buffer.add_string b (if (i - 1) land 1 = 1 then "}" else "]") done);
     let r = parse_result (bytes_of_string (Buffer.contents b)) false in
     r ^ "-deep" ^ (if n > int_of_n mAX_DEPTH then "-over" else if n = int_of_n mAX_DEPTH then "-at" else "-under")
+  | ["ev"; es] ->
+    let ev_of (e : string) : hevent =
+      let r = String.sub e 1 (String.length e - 1) in
+      match e.[0] with
+      | 'B' -> EBegin | 'E' -> EEnd | 's' -> EValue (JStr (s_of_hex r))
+      | 'u' -> EValue (JUInt (n_of_string r)) | 'i' -> EValue (JInt (z_of_string r))
+      | 'U' -> EValue (JUInt64 (n_of_string r)) | 'I' -> EValue (JInt64 (z_of_string r))
+      | 't' -> EValue (JBool true) | 'f' -> EValue (JBool false) | 'n' -> EValue JNull
+      | '[' -> EOpenArr | ']' -> ECloseArr | '{' -> EOpenObj | 'k' -> EKey (s_of_hex r) | '}' -> ECloseObj
+      | _ -> ESetError in
+    let b = Buffer.create 256 in
+    let st = ref h_init in
+    List.iteri (fun i e ->
+      st := h_step !st (ev_of e);
+      Buffer.add_string b (Printf.sprintf "r%d=%s;" i (show_doc (h_tree !st)))) (String.split_on_char ',' es);
+    let err = int_of_n !st.h_err in
+    Buffer.add_string b ("herr=" ^ hex_of_string (string_of_bytes (handler_error_text !st.h_err)));
+    Buffer.add_string b (";claim=" ^ (if err = 0 then show_doc (h_tree !st) else "null"));
+    Buffer.add_string b (Printf.sprintf ";class=ev:%s-depth%d" (if err = 0 then "noerr" else "err" ^ string_of_int err)
+                           (min 3 (List.length !st.h_stack)));
+    Buffer.contents b
   | ["pdoc"; d; t] ->
     let d0 = build_s d in
-    let perr = [| ""; "A JSON Patch document must be an array"; "Elements within a JSON Patch array must be objects";
-                  "Missing path specifier"; "Missing or invalid value"; "Missing from specifier"; "Invalid or missing 'op'" |] in
     let text = s_of_hex t in
     (match patch_parse_text text with
      | PPOk ops ->
@@ -174,7 +190,7 @@ let handle (p : string) : string =
        Printf.sprintf ";class=pdoc:accepted-%dops-%s" (min 4 (List.length ops)) (if ok then "applied" else "failed")
      | PPBad c ->
        let (_, d') = patch_apply_text text d0 in
-       "pp=0;perr=" ^ hex_of_string perr.(int_of_n c) ^ ";all=0;dall=" ^ show_doc d' ^ ";class=pdoc:bad" ^ string_of_int (int_of_n c)
+       "pp=0;perr=" ^ hex_of_string (string_of_bytes (patch_error_text c)) ^ ";all=0;dall=" ^ show_doc d' ^ ";class=pdoc:bad" ^ string_of_int (int_of_n c)
      | PPLex _ -> "pp=0;perr=lex;all=0;dall=" ^ show_doc d0 ^ ";class=pdoc:lexerr"
      | PPHaz -> "pp=HAZARD;class=pdoc:hazard")
   | ["cmp"; x; y] ->
@@ -208,7 +224,7 @@ let handle (p : string) : string =
       Buffer.add_string b (Printf.sprintf "p%d=%s;" i
         (match r with
          | POk (v, _) -> incr nok; "ok:" ^ show v
-         | PErr e -> incr nerr; "err:" ^ hex_of_string err_text.(int_of_n e)
+         | PErr e -> incr nerr; "err:" ^ hex_of_string (string_of_bytes (lexer_error_text e))
          | PFuel -> "FUEL" | PDeep -> "DEEP"))) rs;
     Buffer.add_string b "fresh=1";
     Buffer.add_string b (Printf.sprintf ";class=seq:%dok-%derr" (min !nok 4) (min !nerr 4));
